@@ -54,13 +54,24 @@ size_t g_mm;        /* memmove: offset (inside the moved range) of the witness b
  * the instance as `requires(g_lemma == AL_FN_x ==> lemma)`: a valid formula restricts no input, it only hands the
  * fact to the solver; the ghost guard keeps it out of the way where the contract replaces a call. */
 int g_lemma;
-enum { AL_FN_NONE = 0, AL_FN_ERASE, AL_FN_POP_FRONT_N, AL_FN_SWAP, AL_FN_SET_AT, AL_FN_PUSH_FRONT, AL_FN_SLOT };
+enum { AL_FN_NONE = 0, AL_FN_ERASE, AL_FN_POP_FRONT_N, AL_FN_POP_FRONT, AL_FN_SWAP, AL_FN_SET_AT, AL_FN_PUSH_BACK, AL_FN_PUSH_FRONT };
 #define AL_LEN_MAX (SIZE_MAX / ISZ)
 /* erase(i) of len elements: head part + erased slot + moved tail = everything; the parts do not exceed the whole */
 #define AL_LEM_ERASE(i, len)                                                                                           \
     ((i) < (len) && (len) <= AL_LEN_MAX ==>                                                                            \
      (i) * ISZ + ISZ + (((len) - (i)) - 1) * ISZ == (len) * ISZ && (i) * ISZ + ISZ <= (len) * ISZ &&                   \
          (i) * ISZ < (i) * ISZ + ISZ && (((len) - (i)) - 1) * ISZ <= (len) * ISZ && ((len) - 1) * ISZ + ISZ == (len) * ISZ)
+/* slot i of a list of len elements in cur bytes lies inside the storage */
+#define AL_LEM_SLOT(i, len, cur)                                                                                       \
+    ((i) < (len) && (len) <= AL_LEN_MAX && (len) * ISZ <= (cur) ==> (i) * ISZ + ISZ <= (cur) && (i) * ISZ < (i) * ISZ + ISZ)
+/* slot a ends before slot b begins */
+#define AL_LEM_ORD(a, b) ((a) < (b) && (b) <= AL_LEN_MAX ==> (a) * ISZ + ISZ <= (b) * ISZ)
+/* pop_front_n(n) of len elements: popped bytes + remaining bytes = everything */
+#define AL_LEM_POPN(n, len)                                                                                            \
+    ((n) < (len) && (len) <= AL_LEN_MAX ==>                                                                            \
+     (n) * ISZ + ((len) - (n)) * ISZ == (len) * ISZ && (n) * ISZ <= (len) * ISZ && ((len) - (n)) * ISZ <= (len) * ISZ)
+/* one more element: (i+1)*ISZ is i*ISZ + ISZ, without wrap-around */
+#define AL_LEM_NEXT(i) ((i) < AL_LEN_MAX ==> ((i) + 1) * ISZ == (i) * ISZ + ISZ && (i) * ISZ < (i) * ISZ + ISZ)
 
 /* ---- libc memmove: ASSUMED contract (C standard: the n bytes at src are copied to dest as if through a temporary
  * buffer, nothing else is written, dest is returned), stated for ONE arbitrary byte g_mm of the moved range + frame.
@@ -233,6 +244,7 @@ __CPROVER_ensures(g_on && g_k < OLD(list->current_size) ==> AL_BYTES(list)[g_k] 
 
 AWS_STATIC_IMPL int aws_array_list_set_at(struct aws_array_list *AWS_RESTRICT list, const void *val, size_t index)
 AL_REQ_OK(list)
+__CPROVER_requires(g_lemma == AL_FN_SET_AT ==> AL_LEM_NEXT(index))
 __CPROVER_requires(__CPROVER_is_fresh(val, ISZ))
 AL_REQ_WITNESS(list)
 __CPROVER_assigns(AL_ENSURE_OK(list, index) && index >= list->length : list->length)
@@ -255,6 +267,7 @@ __CPROVER_ensures(g_on && g_k < OLD(list->current_size) && !(RET == AWS_OP_SUCCE
 
 AWS_STATIC_IMPL int aws_array_list_push_back(struct aws_array_list *AWS_RESTRICT list, const void *val)
 AL_REQ_OK(list)
+__CPROVER_requires(g_lemma == AL_FN_PUSH_BACK ==> AL_LEM_NEXT(list->length))
 __CPROVER_requires(__CPROVER_is_fresh(val, ISZ))
 AL_REQ_WITNESS(list)
 __CPROVER_assigns(AL_ENSURE_OK(list, list->length) : list->length)
@@ -276,6 +289,7 @@ __CPROVER_ensures(g_on && g_k < OLD(list->current_size) && !(RET == AWS_OP_SUCCE
 
 AWS_STATIC_IMPL int aws_array_list_push_front(struct aws_array_list *AWS_RESTRICT list, const void *val)
 AL_REQ_OK(list)
+__CPROVER_requires(g_lemma == AL_FN_PUSH_FRONT ==> AL_LEM_NEXT(list->length))
 __CPROVER_requires(__CPROVER_is_fresh(val, ISZ))
 AL_REQ_WITNESS(list)
 __CPROVER_requires(g_on ==> g_mm == g_k) /* ghost only: the memmove witness is the byte that holds old byte g_k */
@@ -320,6 +334,7 @@ __CPROVER_ensures(list->length == 0 && AL_INV_P(list) && AL_INV_Q(list))
 #define AL_POPN_MOVES(l, n) ((n) > 0 && (n) < (l)->length)
 AWS_STATIC_IMPL void aws_array_list_pop_front_n(struct aws_array_list *AWS_RESTRICT list, size_t n)
 AL_REQ_OK(list)
+__CPROVER_requires(g_lemma == AL_FN_POP_FRONT_N ==> AL_LEM_POPN(n, list->length))
 AL_REQ_WITNESS(list)
 __CPROVER_requires(g_on ==> g_mm == g_k - n * ISZ) /* ghost only */
 __CPROVER_assigns((n >= list->length && list->data != NULL) || AL_POPN_MOVES(list, n) : list->length)
@@ -332,6 +347,7 @@ __CPROVER_ensures(g_on && n < OLD(list->length) && g_k >= n * ISZ && g_k - n * I
 
 AWS_STATIC_IMPL int aws_array_list_pop_front(struct aws_array_list *AWS_RESTRICT list)
 AL_REQ_OK(list)
+__CPROVER_requires(g_lemma == AL_FN_POP_FRONT ==> AL_LEM_POPN(1, list->length))
 AL_REQ_WITNESS(list)
 __CPROVER_requires(g_on ==> g_mm == g_k - ISZ) /* ghost only */
 __CPROVER_assigns(list->length > 0 : list->length)
@@ -387,6 +403,8 @@ __CPROVER_ensures(g_on && g_j < item_size ==> ((uint8_t *)item1)[g_j] == g_vb &&
 
 void aws_array_list_swap(struct aws_array_list *AWS_RESTRICT list, size_t a, size_t b)
 AL_REQ_OK(list)
+__CPROVER_requires(g_lemma == AL_FN_SWAP ==> AL_LEM_SLOT(a, list->length, list->current_size) &&
+                   AL_LEM_SLOT(b, list->length, list->current_size) && AL_LEM_ORD(a, b) && AL_LEM_ORD(b, a))
 __CPROVER_requires(a < list->length && b < list->length)
 __CPROVER_requires(g_on ==> (g_j < ISZ ==> g_va == AL_BYTES(list)[a * ISZ + g_j] && g_vb == AL_BYTES(list)[b * ISZ + g_j]))
 __CPROVER_assigns(a != b : __CPROVER_object_upto(AL_BYTES(list) + a * ISZ, ISZ), __CPROVER_object_upto(AL_BYTES(list) + b * ISZ, ISZ))
